@@ -61,6 +61,7 @@ const (
 	netAddr    = "0x323b5d4c32345ced77393b3530b1eed0f346429d"
 	tokAddrZnn = "0x5fbdb2315678afecb367f032d93f642f64180aa3"
 	tokAddrOwn = "0x5aaaa2315678afecb367f032d93f642f64180aa3"
+	tokAddrBad = "0x5bbbb2315678afecb367f032d93f642f64180aa3"
 	evmDest    = "0xb794f5ea0ba39494ce839613fffba74279579268"
 )
 
@@ -365,8 +366,11 @@ func buildEntries(p *pair, env0 *stateEnv) (*stateEnv, string) {
 		b.step()
 		b.receiveAll(owner)
 		twice(types.BridgeContract, definition.ABIBridge.PackMethodPanic(definition.SetTokenPairMethod, netClass, netChain, env.BridgeTok, tokAddrOwn, true, true, true, big.NewInt(10), uint32(100), uint32(2), "{}"), softDelay)
+		// administrator mistake the contract does not prevent: a pair flagged Owned for a token the bridge neither owns nor
+		// may burn (stranger's non-burnable token; owner holds 1000 of it)
+		twice(types.BridgeContract, definition.ABIBridge.PackMethodPanic(definition.SetTokenPairMethod, netClass, netChain, env.Locked, tokAddrBad, true, true, true, big.NewInt(10), uint32(100), uint32(2), "{}"), softDelay)
 		// a wrap request and an unwrap request
-		w := b.send(owner, types.BridgeContract, znn, big.NewInt(100000), definition.ABIBridge.PackMethodPanic(definition.WrapTokenMethodName, netClass, netChain, evmDest))
+		w := b.send(owner, types.BridgeContract, znn, big.NewInt(1000), definition.ABIBridge.PackMethodPanic(definition.WrapTokenMethodName, netClass, netChain, evmDest))
 		add("bridge", w.Hash)
 		env.UnwrapTx = types.HexToHashPanic("00000000000000000000000000000000000000000000000000000000000c0901")
 		env.UnwrapLog = 7
